@@ -142,7 +142,8 @@ def run_obligation(res, prop, st_name, N, findings, scenario="single", cfg=None)
         for r in runs:
             if r["tag"] == "EXC":
                 name, msg, frame = r["err"]
-                items.append(("extraction raised %s (%s) at %s [run %s]" % (name, msg, frame, r["name"]), True, None))
+                cls = "STAGE-shacl-shapemap-crash" if (shapemap and r["want_shacl"] and "shacl_serializer" in frame) else None
+                items.append(("extraction raised %s (%s) at %s [run %s]" % (name, msg, frame, r["name"]), True, cls))
                 r["schema"], r["parse_problem"] = None, "no output"
             else:
                 r["schema"], r["parse_problem"] = P.parse_or_problem(r["text"])
